@@ -8,6 +8,7 @@ mod c04;
 mod c05;
 mod c10;
 mod c11;
+mod c12;
 mod chan;
 mod c19;
 mod smoke;
@@ -25,6 +26,7 @@ pub fn build(prop: &str, tier: &str) -> Vec<Scenario> {
         "C07" => chan::build_c07(quick),
         "C10" => c10::build(quick),
         "C11" => c11::build(quick),
+        "C12" => c12::build(quick),
         "C19" => c19::build(quick),
         _ => vec![],
     }
